@@ -3,7 +3,7 @@ import GuppyVerif.Util.Sexp
 /-! Line-protocol driver for C15.  One S-expression per line:
     `(res <exp> (<variant>…) (<arg>…))` → `none` | `<index> <ret> <argty>…`   (repaired loop)
     `(shared <exp> (<variant>…) (<arg>…))` → same for the pre-fix loop
-    ty: `n` | `i` | `f` | `b` | `(t <ty>…)` | `(v <k>)`;  exp: `-` | ty;  variant: `((<ty>…) <ty>)`
+    ty: `n` | `i` | `f` | `b` | `(t <ty>…)` | `(v <k>)`;  exp: `-` | ty;  variant: `((<ty>…) <ty> [(<comptime 0|1>…)])` | `(o <sig>…)` nested overload | `ai` custom all-int checker
     arg: `(y <ty>)` | `li` | `ln` | `lf` | `lb` | `(t <arg>…)` -/
 open GuppyVerif GuppyVerif.Overload
 
@@ -12,6 +12,7 @@ partial def ty? : Sexp → Option Ty
   | .atom "i" => some .int
   | .atom "f" => some .float
   | .atom "b" => some .bool
+  | .atom "q" => some .qubit
   | .list [.atom "v", k] => do some (.var (← k.asNat?))
   | .list (.atom "t" :: ts) => do some (.tup (← ts.mapM ty?))
   | _ => none
@@ -25,18 +26,33 @@ partial def arg? : Sexp → Option Arg
   | .list (.atom "t" :: es) => do some (.tup (← es.mapM arg?))
   | _ => none
 
-def variant? : Sexp → Option Variant
-  | .list [.list ps, r] => do some ⟨← ps.mapM ty?, ← ty? r⟩
+def bit? : Sexp → Option Bool
+  | .atom "0" => some false
+  | .atom "1" => some true
   | _ => none
 
+def sig? : Sexp → Option Sig
+  | .list [.list ps, r] => do some { params := ← ps.mapM ty?, ret := ← ty? r }
+  | .list [.list ps, r, .list cs] => do some { params := ← ps.mapM ty?, comptime := ← cs.mapM bit?, ret := ← ty? r }
+  | _ => none
+
+def variant? : Sexp → Option Variant
+  | .atom "ai" => some .allInts
+  | .list (.atom "o" :: ss) => do some (.nested (← ss.mapM sig?))
+  | e => (sig? e).map .plain
+
 partial def showTy : Ty → String
-  | .nat => "n" | .int => "i" | .float => "f" | .bool => "b"
+  | .nat => "n" | .int => "i" | .float => "f" | .bool => "b" | .qubit => "q"
   | .var k => s!"(v {k})"
   | .tup ts => "(t " ++ " ".intercalate (ts.map showTy) ++ ")"
 
 def showRes : Option (Nat × Outcome) → String
   | none => "none"
-  | some (i, o) => " ".intercalate (toString i :: showTy o.ret :: o.argTys.map showTy)
+  | some (i, o) =>
+    let idx := match o.inner with
+      | some j => s!"{i}.{j}"
+      | none => toString i
+    " ".intercalate (idx :: showTy o.ret :: o.argTys.map showTy)
 
 def handle (line : String) : String :=
   match Sexp.parse line with
